@@ -326,6 +326,7 @@ func (cc *grpcClientConn) Receive(msg any) error {
 	if err == nil {
 		return nil
 	}
+	verifYield(cc.duplexCall.ctx, "receive.failed")
 	if cc.responseHeader.Get(grpcHeaderStatus) != "" {
 		// We got what gRPC calls a trailers-only response, which puts the trailing
 		// metadata (including errors) into HTTP headers. validateResponse has
